@@ -58,6 +58,11 @@ claim("C07",
   "Uniqueness over the whole history as a set property, mempool/chain interleavings (C15) and the cryptographic link between key image and output are not decided; ringct cgo is trusted." + TB,
   STATIC + "guard dominance (K1), per-iteration all-paths loop queries (K2), ordering-fact tables at rejections (K6), error discipline (K8)")
 
+claim("C08",
+  "Structural necessary conditions: per transaction kind the signed values cover every field of the signed structure (field list read from the struct types, exemptions with reasons); both the signing and the verifying hash append the chain parameter and the protected path of STDEIP155Signer.Sender is dominated by sign-param equality; recoverPlain reaches Ecrecover only after V-range and ValidateSignatureValues, all reachable callers use homestead rules and the Frontier signer is unreachable; the transaction hash covers the signature for every kind; a cached/injected sender is used only for an equal signer and only from the listed sites; the ring-signature message is the prefix hash that binds inputs, outputs, token, keys, fee, extra and the account signature, set before verification. Known finding: unprotected V=27/28 falls back to a chain-independent hash.",
+  "Soundness of secp256k1/ed25519/RingCT (cgo) and one-time-address ownership are cryptographic: NOT decided." + TB,
+  STATIC + "field coverage from types.Struct against rendered literal elements (K4), guard dominance (K1), who-may-call and conversion index (K3), sibling agreement sign/verify (K5)")
+
 for _p in ["C%02d" % i for i in range(1, 21)]:
     if _p not in CLAIMED:
         na(_p, PENDING)
